@@ -32,6 +32,7 @@ class Opts:
         self.big_lengths = 0.0        # probability of lengths >= 128 / 16384
         self.many_additions = 0.25    # probability that an extensible SEQUENCE gets up to 17 additions
         self.reuse_names = True
+        self.big_in_additions = 0.12  # probability of a >4096-bit string/list inside an extension addition
         self.top_container = 0.65     # probability that the top-level type is a SEQUENCE/CHOICE/.. OF
         self.str_kinds = list(STR_KINDS)
         self.__dict__.update(kw)
@@ -214,6 +215,10 @@ class Gen:
     def _length(self, size):
         r = self.rng
         lo, hi, ext = size if size else (0, None, False)
+        if getattr(self, '_in_addition', 0) and r.random() < self.o.big_in_additions:
+            for c in r.sample([511, 512, 513, 600, 1000, 2048], 6):
+                if lo <= c and (hi is None or c <= hi):
+                    return c
         top = hi if hi is not None else lo + 300
         cands = [lo, lo, top if top - lo <= 300 else lo + r.randint(0, 40), lo + 1 if lo + 1 <= top else lo,
                  r.randint(lo, min(top, lo + 20))]
@@ -323,16 +328,25 @@ class Gen:
                 self.member_value(m, d)
             if t['ext'] is not None:
                 present = r.random() < 0.6
+                self._in_addition = getattr(self, '_in_addition', 0) + 1
                 for m in t['ext']:
                     if present or (not m['opt'] and m['default'] is None and r.random() < 0.8):
                         self.member_value(m, d, addition=True)
+                self._in_addition -= 1
             return d
         if k == 'choice':
             alts = list(t['root'])
             if t['ext']:
                 alts += t['ext'] * 2
             n, at = r.choice(alts)
-            return (n, self._value(at))
+            is_add = bool(t['ext']) and any(n == an for an, _ in t['ext'])
+            if is_add:
+                self._in_addition = getattr(self, '_in_addition', 0) + 1
+            try:
+                return (n, self._value(at))
+            finally:
+                if is_add:
+                    self._in_addition -= 1
         raise ValueError(k)
 
     def member_value(self, m, d, addition=False):
@@ -350,6 +364,48 @@ class Gen:
                 d[m['name']] = self._value(m['t'])
         else:
             d[m['name']] = self._value(m['t'])
+
+
+def variant(gen, t):
+    """A sibling of type t: same structure and member names, with a few constraints / presence qualifiers changed.
+    Two such types in one module share member names and (after reorganisation) referenced types, which is what
+    exposes aliasing between compiled types."""
+    import copy
+    r = gen.rng
+    t2 = copy.deepcopy(t)
+
+    def walk(n):
+        k = n['k']
+        if k == 'int' and n['con'] and n['lo'] is not None and n['hi'] is not None and r.random() < 0.5:
+            w = r.choice(RANGE_WIDTHS[:10])
+            n['lo'] = n['lo'] + r.choice([0, 1, 5])
+            n['hi'] = n['lo'] + w - 1
+        if k in ('octs', 'bits', 'str', 'seqof', 'setof') and r.random() < 0.5:
+            n['size'] = None if (n['size'] and r.random() < 0.5) else gen.size()
+            if k in ('bits', 'str') and n['size'] and n['size'][2]:
+                n['size'] = (n['size'][0], n['size'][1], False)
+        if k in ('seq', 'set'):
+            for m in n['root'] + (n['ext'] or []):
+                if r.random() < 0.25 and m['default'] is None:
+                    in_ext = n['ext'] is not None and m in n['ext']
+                    m['opt'] = True if in_ext else (not m['opt'])
+                if m['default'] is not None and r.random() < 0.5:
+                    m['default'] = None
+                    m['opt'] = True
+                walk(m['t'])
+                if m['default'] is not None:
+                    try:
+                        m['default'] = gen.value(m['t'], for_default=True)
+                    except Exception:
+                        m['default'] = None
+                        m['opt'] = True
+        if k in ('seqof', 'setof'):
+            walk(n['elem'])
+        if k == 'choice':
+            for _, a in n['root'] + (n['ext'] or []):
+                walk(a)
+    walk(t2)
+    return t2
 
 
 def cheap(t):
